@@ -13,6 +13,7 @@ import Driver.Zip
 import Driver.KvLin
 import Driver.Monitors
 import Driver.WaitTrace
+import Driver.LruTrace
 
 def main (args : List String) : IO UInt32 := do
   match args with
@@ -30,4 +31,5 @@ def main (args : List String) : IO UInt32 := do
   | ["kvlin"] => Drv.run DrvKvLin.comp
   | ["monitors"] => Drv.run DrvMonitors.comp
   | ["waittrace"] => Drv.run DrvWaitTrace.comp
+  | ["lrutrace"] => Drv.run DrvLruTrace.comp
   | _ => IO.eprintln "usage: driver <component>"; return 2
